@@ -302,6 +302,11 @@ fn run_client(cid: usize, sc: ClientScript, server: SocketAddr, out: Arc<Mutex<C
                             let b = if i == k { payload.len() } else { (i + 1) * cut };
                             pieces.push(frame_bytes(if i == 0 { if st.binary { 2 } else { 1 } } else { 0 }, &payload[a..b], i == k, (n * 8 + i) as u32));
                         }
+                        // every third fragmented message carries an unsolicited Pong between its
+                        // first two fragments (control frames may appear inside a fragmented message)
+                        if n % 3 == 0 && pieces.len() >= 2 {
+                            pieces.insert(1, frame_bytes(0xA, b"", true, (n * 8 + 7) as u32));
+                        }
                     }
                     let gap = st.frag_gap_ms.min(40);
                     let mut ok = true;
@@ -410,7 +415,7 @@ impl Prop for C12 {
         }
     }
     fn rule(&self) -> &'static str {
-        "One case = 1..8 reference clients each running a script over {connect at a time, send text/binary messages (possibly fragmented, with all fragments in one write or 1..40 ms apart so that a message is spread over several polls; bursts of several within one poll interval, now and then 1200 in one write; plain, asking the handler for a unicast reply, asking for a broadcast), ping, sleep} and ending by Close frame (sometimes followed by a data frame, which must not be dispatched), abrupt FIN, closing the socket outright (server writes to it then fail), going silent (partition, with heartbeat on; one time in twenty in the middle of a message: after a non-final fragment or three bytes into a frame) or staying connected; an external AsyncSender thread issuing unicasts and broadcasts (3..60 KB ones when a slow-reading client with a 600..4000-byte receive window is present) at scripted virtual times; handler pools of 1..8 threads; poll interval none / 1..10 ms; heartbeat off or (interval, timeout); linked and unlinked construction; then the shutdown signal. All under one seeded schedule (random / sticky / PCT / round-robin) of the poll loop, the pool, the front App and the clients. Distinct = distinct event-log shape (per client: connect / message count / disconnect, order class) plus configuration; non-trivial = at least two clients or one client with at least two messages, and at least one server-side send."
+        "One case = 1..8 reference clients each running a script over {connect at a time, send text/binary messages (possibly fragmented (every third such message with a Pong between its first two fragments), with all fragments in one write or 1..40 ms apart so that a message is spread over several polls; bursts of several within one poll interval, now and then 1200 in one write; plain, asking the handler for a unicast reply, asking for a broadcast), ping, sleep} and ending by Close frame (sometimes followed by a data frame, which must not be dispatched), abrupt FIN, closing the socket outright (server writes to it then fail), going silent (partition, with heartbeat on; one time in twenty in the middle of a message: after a non-final fragment or three bytes into a frame) or staying connected; an external AsyncSender thread issuing unicasts and broadcasts (3..60 KB ones when a slow-reading client with a 600..4000-byte receive window is present) at scripted virtual times; handler pools of 1..8 threads; poll interval none / 1..10 ms; heartbeat off or (interval, timeout); linked and unlinked construction; then the shutdown signal. All under one seeded schedule (random / sticky / PCT / round-robin) of the poll loop, the pool, the front App and the clients. Distinct = distinct event-log shape (per client: connect / message count / disconnect, order class) plus configuration; non-trivial = at least two clients or one client with at least two messages, and at least one server-side send."
     }
     fn assumptions(&self) -> Vec<String> {
         vec![
